@@ -72,7 +72,10 @@ C10Step(m, o) ==
         a1 == C10Fold(a0, OSends(o.out))
         susp == SelfSuspicions(o, o.pre.id)
         \* suspicions certainly processed: apply_many, no identity change, no error
+        \* (an identity that is already Down cannot refute anything - Down overrides every incarnation -
+        \*  so suspicions reaching a defunct instance are not "processed" in the sense of the clause)
         certain == IF o.call = "apply_many" /\ o.res = "Ok" /\ ~idChanged /\ ~HasNotif(o.out, "Defunct")
+                      /\ ~m.dead /\ o.hpre.conn # "U"
                    THEN {i \in susp : i >= o.hpre.inc /\ i < IncMax} ELSE {}
         must == IF restart THEN -1
                 ELSE IF certain = {} THEN a1.must
